@@ -6,7 +6,11 @@ import random
 from . import gamma, icsgen
 from .davdriver import DavSession, SLOTS
 
-ICS_NAMES = ["a.ics", "b.ics", "c.ics", "d e.ics", "E.ICS.ics"]
+# names: plain, with a blank, with an inner upper-case extension, with an upper / mixed case
+# extension, and one name in both Unicode normal forms (decomposed as macOS sends it, and
+# precomposed) - two different resources
+ICS_NAMES = ["a.ics", "b.ics", "c.ics", "d e.ics", "E.ICS.ics", "UP.ICS", "Mixed.Ics",
+             "Rene\u0301.ics", "Ren\u00e9.ics"]
 VCF_NAMES = ["c.vcf", "d.vcf", "x y.vcf"]
 UIDS = ["uid-1@example.com", "uid-2@example.com", "UID-1@example.com", "uid 3 with space",
         "uid\\,4\\;esc"]
